@@ -39,6 +39,6 @@ for p in $list; do
 done
 rm -f "$ROOT"/replays/*.json
 # leave the build output in the state of the clean tree again
-(cd "$ROOT/sim" && cargo build --offline --release -p c18 -p c15 -p c03 >/dev/null 2>&1 && cargo build --offline --profile relchk -p c03 >/dev/null 2>&1)
+(cd "$ROOT/sim" && cargo build --offline --release -p c18 -p c15 -p c03 >/dev/null 2>&1 && cargo build --offline --profile relchk -p c03 >/dev/null 2>&1 && cargo build --offline --profile devchk -p c03 >/dev/null 2>&1)
 echo "caught=$pass missed=$fail recorded_misses=$known_miss"
 [ $fail = 0 ]
